@@ -11,12 +11,11 @@ Section Atomic.
   Variable sig_flag : N -> option N.
   Variable sighash_ecdsa : N -> option N.
   Variable inp_mall : bool -> bool.
-  Variable keep_unknown : bool.
 
-  Notation stepM := (step try_input interp_check desc_info sig_flag sighash_ecdsa inp_mall keep_unknown).
-  Notation runM := (run try_input interp_check desc_info sig_flag sighash_ecdsa inp_mall keep_unknown).
-  Notation finalize_inputM := (finalize_input try_input keep_unknown).
-  Notation specM := (finalize_input_spec try_input keep_unknown).
+  Notation stepM := (step try_input interp_check desc_info sig_flag sighash_ecdsa inp_mall).
+  Notation runM := (run try_input interp_check desc_info sig_flag sighash_ecdsa inp_mall).
+  Notation finalize_inputM := (finalize_input try_input).
+  Notation specM := (finalize_input_spec try_input).
 
   (* ---- finalize_input touches only its own index, and nothing if that input is final *)
   Lemma finalize_input_other st i m st' j :
@@ -41,7 +40,7 @@ Section Atomic.
 
   Lemma fin_mut_loop_keeps_final m idxs : forall st errs j a,
     nth_error (p_inputs st) j = Some a -> is_final a = true ->
-    nth_error (p_inputs (fst (fst (fin_mut_loop try_input keep_unknown m idxs st errs)))) j = Some a.
+    nth_error (p_inputs (fst (fst (fin_mut_loop try_input m idxs st errs)))) j = Some a.
   Proof.
     induction idxs as [|i r IH]; intros st errs j a Hn Hf; simpl; auto.
     destruct (finalize_inputM st i m) as [st1|e|] eqn:H; simpl; auto.
@@ -50,7 +49,7 @@ Section Atomic.
 
   Lemma fin_old_loop_keeps_final m idxs : forall st j a,
     nth_error (p_inputs st) j = Some a -> is_final a = true ->
-    nth_error (p_inputs (fst (fin_old_loop try_input keep_unknown m idxs st))) j = Some a.
+    nth_error (p_inputs (fst (fin_old_loop try_input m idxs st))) j = Some a.
   Proof.
     induction idxs as [|i r IH]; intros st j a Hn Hf; simpl; auto.
     destruct (finalize_inputM st i m) as [st1|e|] eqn:H; simpl; auto.
@@ -70,7 +69,7 @@ Section Atomic.
     intros st o j a Ho Hn Hf. destruct o; try discriminate; simpl.
     - unfold finalize_mut.
       pose proof (fin_mut_loop_keeps_final mall (seq 0 (length (p_inputs st))) st [] j a Hn Hf) as H.
-      destruct (fin_mut_loop try_input keep_unknown mall (seq 0 (length (p_inputs st))) st []) as [[st' es] p].
+      destruct (fin_mut_loop try_input mall (seq 0 (length (p_inputs st))) st []) as [[st' es] p].
       simpl in H. destruct p; destruct es; exact H.
     - unfold finalize_old. destruct (sanity_check sig_flag sighash_ecdsa st); simpl; auto.
       apply fin_old_loop_keeps_final; auto.
@@ -104,7 +103,7 @@ Section Atomic.
 
   (* ---- finalize_mut: exact account of one pass *)
   Lemma fin_mut_loop_spec m idxs : NoDup idxs -> forall st errs st' es p,
-    fin_mut_loop try_input keep_unknown m idxs st errs = (st', es, p) -> p = false ->
+    fin_mut_loop try_input m idxs st errs = (st', es, p) -> p = false ->
     exists new, es = errs ++ new /\
       (forall i e, In (i, e) new ->
          In i idxs /\ nth_error (p_inputs st') i = nth_error (p_inputs st) i /\
@@ -145,7 +144,7 @@ Section Atomic.
       exists a, nth_error (p_inputs st) i = Some a /\ is_final a = false.
   Proof.
     intros st m st' es H i e Hin. simpl in H. unfold finalize_mut in H.
-    destruct (fin_mut_loop try_input keep_unknown m (seq 0 (length (p_inputs st))) st []) as [[st1 es1] p] eqn:L.
+    destruct (fin_mut_loop try_input m (seq 0 (length (p_inputs st))) st []) as [[st1 es1] p] eqn:L.
     destruct p; [destruct es1; inversion H|].
     assert (st1 = st' /\ es1 = es) as [-> ->] by (destruct es1; inversion H; auto).
     destruct (fin_mut_loop_spec m _ (seq_NoDup _ _) _ _ _ _ _ L eq_refl) as (new & E & Hnew & _).
@@ -155,7 +154,7 @@ Section Atomic.
   (* psbt::finalize / finalize_mall (finalize_helper) stop at the first failure: the failing
      input is untouched, inputs before it that could be finalized stay finalized *)
   Lemma fin_old_loop_fail m idxs : NoDup idxs -> forall st st' i e,
-    fin_old_loop try_input keep_unknown m idxs st = (st', RInputErr i e) ->
+    fin_old_loop try_input m idxs st = (st', RInputErr i e) ->
     In i idxs /\ exists a, nth_error (p_inputs st') i = Some a /\ is_final a = false /\
                            try_input st' i m = TErr e.
   Proof.
@@ -174,8 +173,8 @@ Section Atomic.
     stepM st (FinalizeInp i m) = (st', ROk) ->
     nth_error (p_inputs st) i = Some a -> is_final a = false ->
     exists s w, try_input st i (inp_mall m) = TOk s w /\
-      st' = with_inputs st (set_nth i (cleared keep_unknown a s w) (p_inputs st)) /\
-      nth_error (p_inputs st') i = Some (cleared keep_unknown a s w) /\
+      st' = with_inputs st (set_nth i (cleared a s w) (p_inputs st)) /\
+      nth_error (p_inputs st') i = Some (cleared a s w) /\
       (forall j, j <> i -> nth_error (p_inputs st') j = nth_error (p_inputs st) j).
   Proof.
     intros st i m st' a H Hn Hf. simpl in H. unfold finalize_inp in H.
@@ -189,29 +188,22 @@ Section Atomic.
   Qed.
 
   (* the fields of a freshly finalized input, one by one *)
-  Theorem cleared_fields : forall ku a s w,
-    let c := cleared ku a s w in
+  Theorem cleared_fields : forall a s w,
+    let c := cleared a s w in
     i_fsig c = nz s /\ i_fwit c = nz w /\
     i_nwutxo c = i_nwutxo a /\ i_wutxo c = i_wutxo a /\
     i_psigs c = [] /\ i_sighash c = None /\ i_redeem c = None /\ i_witscript c = None /\
     i_bip32 c = [] /\ i_ripemd c = [] /\ i_sha256 c = [] /\ i_hash160 c = [] /\ i_hash256 c = [] /\
     i_tapkeysig c = None /\ i_tapsigs c = [] /\ i_tapscripts c = [] /\ i_taporigins c = [] /\
     i_tapik c = None /\ i_tapmerkle c = None /\ i_prop c = [] /\
-    i_unknown c = (if ku then i_unknown a else []).
+    i_unknown c = i_unknown a.
   Proof. intros. repeat split. Qed.
 
   (* BIP174 (Input Finalizer): "All other data except the UTXO and unknown fields in the
-     input key-value map should be cleared".  With keep_unknown = false (what the harness
-     tabulates on the pinned tree: finalize_input's mem::take also drops the `unknown` and
-     `proprietary` maps) the clause fails; with keep_unknown = true it holds. *)
-  Theorem finalize_keeps_unknown_refuted :
-    exists a s w, i_unknown a <> [] /\ i_unknown (cleared false a s w) = [].
-  Proof.
-    exists (mkIn None None [] None None None [] None None [] [] [] [] None [] [] [] None None [] [(1%N, 1%N)]), 1%N, 1%N.
-    split; [discriminate|reflexivity].
-  Qed.
-
-  Theorem finalize_keeps_unknown_when_kept : forall a s w, i_unknown (cleared true a s w) = i_unknown a.
+     input key-value map should be cleared": the unknown pairs survive finalization.
+     (Refuted with a witness until /repo commit 2847ba9c; `proprietary` pairs are still
+     dropped, which BIP174 does not regulate.) *)
+  Theorem finalize_keeps_unknown : forall a s w, i_unknown (cleared a s w) = i_unknown a.
   Proof. reflexivity. Qed.
 
   (* ---- extract *)
@@ -241,12 +233,12 @@ Section Atomic.
   (* ---- no reachable panic site: finalize_input's `psbt.inputs[index]` is guarded by every caller *)
   Lemma fin_mut_loop_no_panic m idxs : forall st errs,
     (forall i, In i idxs -> i < length (p_inputs st)) ->
-    snd (fin_mut_loop try_input keep_unknown m idxs st errs) = false.
+    snd (fin_mut_loop try_input m idxs st errs) = false.
   Proof.
     induction idxs as [|i r IH]; intros st errs Hlt; simpl; auto.
     pose proof (specM st i m) as S.
     destruct (finalize_inputM st i m) as [st1|e|] eqn:Hfi.
-    - apply IH. intros j Hj. rewrite (sreach_length _ _ (finalize_input_sreach _ _ _ _ _ _ Hfi)).
+    - apply IH. intros j Hj. rewrite (sreach_length _ _ (finalize_input_sreach _ _ _ _ _ Hfi)).
       apply Hlt; right; auto.
     - apply IH. intros j Hj. apply Hlt; right; auto.
     - specialize (Hlt i (or_introl eq_refl)). lia.
@@ -254,12 +246,12 @@ Section Atomic.
 
   Lemma fin_old_loop_no_panic m idxs : forall st,
     (forall i, In i idxs -> i < length (p_inputs st)) ->
-    forall s, snd (fin_old_loop try_input keep_unknown m idxs st) <> RPanic s.
+    forall s, snd (fin_old_loop try_input m idxs st) <> RPanic s.
   Proof.
     induction idxs as [|i r IH]; intros st Hlt s; simpl; [discriminate|].
     pose proof (specM st i m) as S.
     destruct (finalize_inputM st i m) as [st1|e|] eqn:Hfi; simpl.
-    - apply IH. intros j Hj. rewrite (sreach_length _ _ (finalize_input_sreach _ _ _ _ _ _ Hfi)).
+    - apply IH. intros j Hj. rewrite (sreach_length _ _ (finalize_input_sreach _ _ _ _ _ Hfi)).
       apply Hlt; right; auto.
     - discriminate.
     - specialize (Hlt i (or_introl eq_refl)). lia.
@@ -276,7 +268,7 @@ Section Atomic.
       destruct (negb (n =? d_spk (desc_info d))%N); simpl; discriminate.
     - unfold finalize_mut.
       pose proof (fin_mut_loop_no_panic mall (seq 0 (length (p_inputs st))) st []) as H.
-      destruct (fin_mut_loop try_input keep_unknown mall (seq 0 (length (p_inputs st))) st []) as [[st' es] p].
+      destruct (fin_mut_loop try_input mall (seq 0 (length (p_inputs st))) st []) as [[st' es] p].
       simpl in H. rewrite H. destruct es; simpl; discriminate.
       intros i Hi. apply in_seq in Hi. lia.
     - unfold finalize_old. destruct (sanity_check sig_flag sighash_ecdsa st) eqn:Hs; simpl.
